@@ -66,7 +66,7 @@ FLOORS = {
 SHARDS_THOROUGH = 16
 
 #: trigger tags (vf.dslx.shapes.triggers) of the known parser defects: excluded by construction from ``clean``
-PARSE_TRIGGERS = ('not', 'abs', 'factors-asym', 'mixed-table-ref', 'bool-leaf-pred', 'cross-join', 'star-over-ref-set')
+PARSE_TRIGGERS = ('not', 'abs', 'factors-asym', 'mixed-table-ref', 'bool-leaf-pred', 'cross-join')
 PROFILE = dict(S.PROFILES['semantic'], bool_col_pred=True)
 _EXCLUDED = {}
 
@@ -200,8 +200,6 @@ def _judge(ctx, spec, stmt, data, ref, trig, edep) -> list:
             kind = refeval.compare(ref, value, directions_of(stmt))
             if kind is not None:
                 dev[name] = (kind, kind, f'expected={_show(ref)} got={value[:12]}')
-    if 'star-over-ref-set' in trig and any(what == 'rows' and any(len(r) != len(kinds) for r in value) for what, value in outcome.values()):
-        rtags = ['star-over-ref-set']  # the symptom of that defect is exact: rows wider than the statement's schema
     excuses = {'sqlite': edep & _SQLITE_EXCUSES, 'duckdb': edep & _DUCKDB_EXCUSES}
     if ref is None:
         # no reference denotation: the only verdict left is that the parser output is executable somewhere
@@ -246,7 +244,7 @@ def _judge(ctx, spec, stmt, data, ref, trig, edep) -> list:
 
 def result_tags(trig) -> list:
     """Attribution of a wrong result / execution error to the known defect that explains it (one tag, by precedence)."""
-    for tag in ('direct-query-over-set', 'not-eq', 'cross-join', 'star-over-ref-set'):
+    for tag in ('direct-query-over-set', 'not-eq', 'cross-join'):
         if tag in trig:
             return [tag]
     return []
